@@ -77,6 +77,31 @@ def winner (better : List α → List α → Bool) : List (List α) → Option (
 
 end Order
 
+/-! ### the scalar comparisons of C++ `double` as an interface
+
+  The generated bodies (`GenOps.lean`) compare components through a `Cmp F`:
+  `lt le eq` are the built-in `< <= ==`; the other three are *defined* from them
+  (`a > b` is `b < a`, `a >= b` is `b <= a`, `a != b` is `!(a == b)`: true of IEEE-754
+  comparisons for every operand, NaN included).  `same` is equality of the object
+  representation (what `memcmp` of the eight bytes sees). -/
+structure Cmp (F : Type) where
+  lt : F → F → Bool
+  le : F → F → Bool
+  eq : F → F → Bool
+  same : F → F → Bool
+
+namespace Cmp
+variable {F : Type} (c : Cmp F)
+def gt (a b : F) : Bool := c.lt b a
+def ge (a b : F) : Bool := c.le b a
+def ne (a b : F) : Bool := !c.eq a b
+end Cmp
+
+/-- NaN-free doubles ordered through their key; `same` is left arbitrary (for the bit-pattern
+    instance it is equality of patterns). -/
+def keyCmp {α : Type} (key : α → Int) (same : α → α → Bool) : Cmp α :=
+  { lt := slt key, le := sle key, eq := seq key, same := same }
+
 /-! ### the executable instance: doubles as 64-bit patterns -/
 
 /-- sign-magnitude pattern → ordered integer; both zeros ↦ 0, ±∞ included. -/
@@ -97,14 +122,23 @@ structure FOps (F : Type) where
   abs : F → F
   sqrt : F → F
   round : F → F
-  zero : F
-  eps : F          -- `constexpr T float_epsilon(0.0001)` of `round_to`
+  /-- `std::isfinite`, `std::isnan` -/
+  isfinite : F → Bool
+  isnan : F → Bool
+  /-- a floating literal of the source, given by its 64-bit pattern -/
+  lit : UInt64 → F
+
+/-- bit patterns of the literals the sources use -/
+def bitsZero : UInt64 := 0
+def bitsRoundEps : UInt64 := 0x3F1A36E2EB1C432D     -- `constexpr T float_epsilon(0.0001)` of `round_to`
+def bitsTwo : UInt64 := 0x4000000000000000          -- `2.0`
+def bitsMachEps : UInt64 := 0x3CB0000000000000      -- `std::numeric_limits<double>::epsilon()`
 
 section Arith
 variable {F : Type} (o : FOps F)
 
 /-- scalar `round_to` of utility.h: `val /= eps; val = std::round(val); val *= eps`. -/
-def roundTo (x : F) : F := o.mul (o.round (o.div x o.eps)) o.eps
+def roundTo (x : F) : F := o.mul (o.round (o.div x (o.lit bitsRoundEps))) (o.lit bitsRoundEps)
 
 /-- `for (i < size()) operator[](i) op= f[i]` — reading `f[i]` past `f.size()` is a
     contract violation (`Expects(i < size())`), modelled as `none`. -/
@@ -129,13 +163,63 @@ def distLoop (acc : F) : List F → List F → Option F
   | _ :: _, [] => none
   | x :: xs, y :: ys => distLoop (o.add acc (o.abs (o.sub x y))) xs ys
 
-def distance (a b : List F) : Option F := distLoop o o.zero a b
+def distance (a b : List F) : Option F := distLoop o (o.lit bitsZero) a b
 
 /-- `combine`: `ret.reserve(n1+n2); ret.insert(end, f1…); ret.insert(end, f2…)`
     (insert at `end()` is `append`; the container itself is the subject of C20). -/
 def combine (a b : List F) : List F := ([] ++ a) ++ b
 
 end Arith
+
+/-! ### scalar helpers of utility.h and the predicates on vectors: the documented meaning -/
+
+section Helpers
+variable {F : Type} (c : Cmp F) (o : FOps F)
+
+/-- `std::max(a, b)` (libstdc++: `if (a < b) return b; return a;`) -/
+def stdMax (a b : F) : F := if c.lt a b then b else a
+
+/-- `issmall(v)`: `|v| < 2ε`, `ε` the machine epsilon -/
+def issmallSpec (v : F) : Bool := c.lt (o.abs v) (o.mul (o.lit bitsTwo) (o.lit bitsMachEps))
+
+/-- `isnonnegative(v)`: `v >= 0` -/
+def nonnegSpec (v : F) : Bool := c.le (o.lit bitsZero) v
+
+/-- `almost_equal(v1, v2, e)`: the difference is small, or at most `e` times the larger magnitude -/
+def aeqSpec (v1 v2 e : F) : Bool :=
+  issmallSpec c o (o.abs (o.sub v1 v2)) ||
+    c.le (o.abs (o.sub v1 v2)) (o.mul (stdMax c (o.abs v1) (o.abs v2)) e)
+
+/-- `almost_equal` on vectors: components are compared left to right until one pair fails;
+    reading `f2[i]` past `f2.size()` is the contract violation `Expects(i < size())` -/
+def vaeq (e : F) : List F → List F → Option Bool
+  | [], _ => some true
+  | _ :: _, [] => none
+  | x :: xs, y :: ys => if aeqSpec c o x y e then vaeq e xs ys else some false
+
+def vfinite (f : List F) : Bool := f.all o.isfinite
+def vnan (f : List F) : Bool := f.any o.isnan
+def vsmall (f : List F) : Bool := f.all (issmallSpec c o)
+def vnonneg (f : List F) : Bool := f.all (nonnegSpec c o)
+
+/-- `operator<<`: the components, each printed with `fmt` (= `std::ostream << double`), separated by
+    `", "` and enclosed in parentheses -/
+def joinSep (sep : String) : List String → String
+  | [] => ""
+  | [a] => a
+  | a :: b :: r => a ++ sep ++ joinSep sep (b :: r)
+
+def showSpec (fmt : F → String) (f : List F) : String :=
+  "(" ++ joinSep ", " (f.map fmt) ++ ")"
+
+end Helpers
+
+/-- hardware comparisons (used only by the compiled driver; opaque to the kernel). -/
+def floatCmp : Cmp Float where
+  lt a b := decide (a < b)
+  le a b := decide (a ≤ b)
+  eq a b := a == b
+  same a b := a.toBits == b.toBits
 
 /-- hardware doubles (used only by the compiled driver; opaque to the kernel). -/
 def floatOps : FOps Float where
@@ -146,7 +230,8 @@ def floatOps : FOps Float where
   abs := Float.abs
   sqrt := Float.sqrt
   round := Float.round
-  zero := Float.ofBits 0
-  eps := Float.ofBits 0x3F1A36E2EB1C432D   -- 0.0001
+  isfinite := Float.isFinite
+  isnan := Float.isNaN
+  lit := Float.ofBits
 
 end Vita.C18
